@@ -201,6 +201,46 @@ def build() -> Check:
                     badl.append(f"{mname}: the logger's LogInfo carries execution state {st_k}")
         ck.ob("R1.context-logger-carries-enclosing-id", f"context.py:DurableContext.{mname}", not badl, "; ".join(badl[:2]))
     ck.floor("context_logger_sites", n_li, 3)
+    # ... and the loggers handed to user functions (step function, check function of wait_for_condition) are derived with a LogInfo built from the execution state
+    # too: every construction of a LogInfo outside logger.py passes, as `execution_state`, something of type ExecutionState - an attribute annotated so in the class
+    # (or its bases), or a parameter annotated so (mutscan 5: `execution_state=self.context_logger` - the derived logger asks a Logger whether the state is replaying and
+    # the first log call of the check function raises AttributeError)
+    from sa.interp import Interp as _Interp
+    from sa.protocol import Chooser as _Chooser
+    try:
+        _it = _Interp(prog, _Chooser([]), pm.make_config(faults=False, user_raises={}))
+    except Exception:   # constructor signature differs: fall back to names
+        _it = None
+    st_fq = prog.cls("state", "ExecutionState").fq
+    n_lic, bad_li = 0, []
+    for c_ in prog.classes.values():
+        if c_.module.relpath.endswith("logger.py"):
+            continue
+        for f_ in [f for f in c_.methods.values() if f.cls is c_]:
+            for call_ in [n for n in ast.walk(f_.node) if isinstance(n, ast.Call) and ast.unparse(n.func) in ("LogInfo", "LogInfo.from_operation_identifier")]:
+                n_lic += 1
+                arg_ = next((k.value for k in call_.keywords if k.arg == "execution_state"), call_.args[0] if call_.args else None)
+                ok_ = False
+                why_ = "<missing>" if arg_ is None else ast.unparse(arg_)
+                if isinstance(arg_, ast.Attribute) and isinstance(arg_.value, ast.Name) and arg_.value.id == "self":
+                    typ_ = None
+                    if _it is not None:
+                        try:
+                            typ_ = _it.inst_attr_types(c_).get(arg_.attr)
+                        except Exception:
+                            typ_ = None
+                    if typ_ is not None and getattr(typ_, "classes", None):
+                        ok_ = st_fq in typ_.classes
+                    else:
+                        ok_ = arg_.attr in ("state", "_state", "execution_state", "_execution_state")
+                elif isinstance(arg_, ast.Name):
+                    ann_ = next((a.annotation for a in f_.node.args.args + f_.node.args.kwonlyargs if a.arg == arg_.id), None)
+                    ok_ = (ann_ is not None and "ExecutionState" in ast.unparse(ann_)) or (ann_ is None and arg_.id in ("state", "execution_state"))
+                if not ok_:
+                    bad_li.append(f"{fn_construct(f_)} line {call_.lineno}: execution_state={why_}")
+    ck.floor("log_info_constructions", n_lic, 4)
+    ck.ob("R1.derived-logger-carries-the-execution-state", "logger.py:LogInfo", not bad_li,
+          "; ".join(bad_li[:2]) + ": the logger derived for a user function does not ask the execution state whether it is replaying (it is silent or raises instead)")
     sl = lg.methods.get("_should_log")
     ck.ob("R1.gate-is-not-replaying", fn_construct(sl) if sl else "logger.py:Logger._should_log",
           sl is not None and ast.unparse(sl.node.body[-1]).replace(" ", "") == "returnnotself._execution_state.is_replaying()", "Logger._should_log must be `not state.is_replaying()`")
